@@ -535,6 +535,140 @@ class RegenOutputs(Contract):
         return out
 
 
+class RegenInputs(Contract):
+    """What the regeneration step depends on: every script that was executed, the toolchain file if one was given, and
+    the package metadata if package files are configured -- all of them, in that order."""
+    target = 'bfg9000/builtins/regenerate.py::_inputs'
+    properties = ('C08', 'C10')
+
+    def cases(self):
+        return ['%d/%s/%s' % (n, t, m) for n in (1, 2) for t in ('toolchain', 'no-toolchain') for m in ('packages', 'no-packages')]
+
+    def params(self, cx, case):
+        n, t, m = case.split('/')
+        cx.ghost('n', int(n))
+        cx.ghost('toolchain', t == 'toolchain')
+        cx.ghost('packages', m == 'packages')
+        bi = Obj(object, {'bootstrap_paths': PList([Obj(object, {'script': i}) for i in range(int(n))])})
+        env = Obj(object, {'mopack': PList([Obj(object, {'package_file': 0})] if m == 'packages' else []),
+                           'toolchain': Obj(object, {'path': Obj(object, {'toolchain_file': True}) if t == 'toolchain' else None}),
+                           'tool': OpaqueFn('tool', lambda I, a, k: Obj(object, {'metadata_file': Obj(object, {'metadata_of': a[0]})}))})
+        return {'build_inputs': bi, 'env': env}
+
+    def ensures(self, a, r):
+        items = list(r.items) if isinstance(r, PList) and r.concrete else None
+        want = [('script', i) for i in range(a.n)] + ([('toolchain_file', True)] if a.toolchain else []) + \
+            ([('metadata_of', 'mopack')] if a.packages else [])
+        return {'every_script_then_toolchain_file_then_package_metadata': z3.BoolVal(
+            items is not None and len(items) == len(want) and all(RpathTool.has(x, k, v) for x, (k, v) in zip(items, want)))}
+
+
+class RegenRule(Contract):
+    """The regeneration step in the build file: it produces exactly the declared outputs (_outputs), depends on every
+    declared input (_inputs), and runs `bfg9000 regenerate` in lazy mode."""
+    properties = ('C08', 'C10', 'C06')
+    N_IN = 2
+
+    def cases(self):
+        return ['no-packages']
+
+    def common(self, cx):
+        def tool(I, a, k, node=None):
+            name = a[0]
+
+            def run(I, a2, k2, node=None):
+                I.events.append(('tool_call', [name] + list(a2), dict(k2)))
+                return Obj(object, {'command_of': name, 'args': tuple(a2), 'lazy': k2.get('lazy')})
+            return Obj(object, {'__call__': OpaqueFn(name, run), 'metadata_file': Obj(object, {'metadata_of': name})})
+        return Obj(object, {'mopack': PList([]), 'tool': OpaqueFn('tool', tool), 'backend_version': None,
+                            'toolchain': Obj(object, {'path': None})})
+
+    def io_calls(self):
+        return {RG._inputs: lambda I, a, k, node=None: PList([Obj(object, {'declared_input': i}) for i in range(self.N_IN)]),
+                RG._outputs: lambda I, a, k, node=None: Obj(object, {'declared_outputs': True})}
+
+    @staticmethod
+    def is_lazy_regenerate(c):
+        return isinstance(c, Obj) and c.attrs.get('command_of') == 'bfg9000' and c.attrs.get('args') == ('regenerate',) and \
+            c.attrs.get('lazy') is True
+
+    def inputs_ok(self, v):
+        items = list(v.items) if isinstance(v, PList) and v.concrete else None
+        return items is not None and len(items) == self.N_IN and all(RpathTool.has(x, 'declared_input', i) for i, x in enumerate(items))
+
+
+class MakeRegenRule(RegenRule):
+    target = 'bfg9000/builtins/regenerate.py::make_regenerate_rule'
+
+    def params(self, cx, case):
+        return {'build_inputs': PDict({}), 'buildfile': Obj(object, {'rule': OpaqueFn('rule', self.record('rule'))}), 'env': self.common(cx)}
+
+    @staticmethod
+    def record(name):
+        def h(I, a, k, node=None):
+            I.events.append((name, list(a), dict(k)))
+        return h
+
+    def opaque_calls(self):
+        from bfg9000.backends.make import writer as mkw
+        d = self.io_calls()
+        d[mkw.multitarget_rule] = self.record('multitarget_rule')
+        return d
+
+    def ensures(self, a, r):
+        mt = [e for e in a.events if e[0] == 'multitarget_rule']
+        out = {'one_regeneration_rule': z3.BoolVal(len(mt) == 1)}
+        if len(mt) != 1:
+            return out
+        kw = mt[0][2]
+        out['produces_the_declared_outputs'] = z3.BoolVal(RpathTool.has(kw.get('targets'), 'declared_outputs', True))
+        out['depends_on_every_declared_input'] = z3.BoolVal(self.inputs_ok(kw.get('deps')))
+        rec = kw.get('recipe')
+        out['runs_a_lazy_regeneration'] = z3.BoolVal(isinstance(rec, PList) and rec.concrete and len(rec.items) == 1 and
+                                                     self.is_lazy_regenerate(rec.items[0]))
+        out['stamp_survives_clean'] = z3.BoolVal(kw.get('clean_stamp') is False)
+        empties = [e for e in a.events if e[0] == 'rule']
+        out['a_removed_input_does_not_stop_make'] = z3.BoolVal(
+            len(empties) == self.N_IN and all(set(e[2]) == {'target'} and RpathTool.has(e[2]['target'], 'declared_input', i)
+                                              for i, e in enumerate(empties)))
+        return out
+
+
+class NinjaRegenRule(RegenRule):
+    target = 'bfg9000/builtins/regenerate.py::ninja_regenerate_rule'
+
+    def params(self, cx, case):
+        bf = Obj(object, {'rule': OpaqueFn('rule', MakeRegenRule.record('rule')), 'build': OpaqueFn('build', MakeRegenRule.record('build'))})
+        regen = Obj(RG.Regenerate, {'outputs': PList([]), 'depfile': Obj(object, {'the_find_depfile': True})})
+        return {'build_inputs': PDict({'regenerate': regen}), 'buildfile': bf, 'env': self.common(cx)}
+
+    def opaque_calls(self):
+        from bfg9000.backends.ninja import writer as njw
+        d = self.io_calls()
+        d[njw.features.supported] = lambda I, a, k, node=None: False
+        return d
+
+    def ensures(self, a, r):
+        rules = [e for e in a.events if e[0] == 'rule']
+        builds = [e for e in a.events if e[0] == 'build']
+        phonies = [e for e in builds if e[2].get('rule') == 'phony']
+        builds = [e for e in builds if e[2].get('rule') != 'phony']
+        out = {'one_rule_one_build_statement': z3.BoolVal(len(rules) == 1 and len(builds) == 1)}
+        if len(rules) != 1 or len(builds) != 1:
+            return out
+        rk, bk = rules[0][2], builds[0][2]
+        out['runs_a_lazy_regeneration'] = z3.BoolVal(self.is_lazy_regenerate(rk.get('command')) and bk.get('rule') == rk.get('name'))
+        out['generator_rule_with_the_find_depfile'] = z3.BoolVal(rk.get('generator') is True and
+                                                                 RpathTool.has(rk.get('depfile'), 'the_find_depfile', True))
+        out['produces_the_declared_outputs'] = z3.BoolVal(RpathTool.has(bk.get('output'), 'declared_outputs', True))
+        deps = bk.get('implicit') if bk.get('implicit') is not None else bk.get('inputs')
+        out['depends_on_every_declared_input'] = z3.BoolVal(self.inputs_ok(deps))
+        out['a_removed_input_does_not_stop_ninja'] = z3.BoolVal(
+            len(phonies) == self.N_IN and all(set(e[2]) == {'output', 'rule'} and RpathTool.has(e[2]['output'], 'declared_input', i)
+                                              for i, e in enumerate(phonies)))
+        return out
+
+
 class RegenFilesPersist(Contract):
     """to_json followed by from_json (the JSON text in between is json.dump / json.load of lists: order-preserving)."""
     properties = ('C10',)
@@ -653,4 +787,5 @@ class RegenFilesRoundTrip(Contract):
 
 
 def registry():
-    return [SupportsDestdir(), DarwinPostInstall(), PatchelfPostInstall(), RegenOutputs(), RegenFilesToJson(), RegenFilesFromJson(), RegenFilesRoundTrip(), InstallFiles(), UninstallFiles(), AddInstallPaths(), Installify()]
+    return [SupportsDestdir(), DarwinPostInstall(), PatchelfPostInstall(), RegenOutputs(), RegenFilesToJson(), RegenFilesFromJson(), RegenFilesRoundTrip(), InstallFiles(), UninstallFiles(), AddInstallPaths(), Installify(),
+            RegenInputs(), MakeRegenRule(), NinjaRegenRule()]
